@@ -30,7 +30,12 @@ notes={"C04-a":"C06 (after the `ch_outer_sni_changed` retry variant was added; C
  "C13-e":"C13 (after question names in absolute form, with a trailing dot, were generated)",
  "C15-e":"C15 (after one iter.Seq value was ranged over again after an early stop)",
  "C18-e":"C18 (after the behaviour `rejected with retry configs, then succeed/fail/hang on the retry` was added)",
- "C19-e":"C19 (after the request given to RoundTrip was compared before and after the call)"}
+ "C19-e":"C19 (after the request given to RoundTrip was compared before and after the call)",
+ "C02-f":"C09 and C01 as they were; C02 after the multi-key control and the `wrong_info_concatenated_configs` substitution were added",
+ "C07-f":"C07 (after the HelloRetryRequest mode was added: HRR, then (CCS and) a retried hello followed by more client bytes, under every chunking)",
+ "C12-f":"C12 (after the decoder was given a buffer of exactly the message's size, plus the spare-capacity differential and the crafted SvcParams source)",
+ "C14-f":"C14 (after service records naming the origin host itself as their target were generated)",
+ "C20-f":"C20 (after stored values that already carry the list being published, in any syntactic form, were generated)"}
 rows=["| Seed | Breaks | Change (summary) | Needs to manifest | Caught by (quick tier) |","|---|---|---|---|---|"]
 for d in sorted(glob.glob('/verif/seeded/*/meta.json')):
     m=json.load(open(d)); sid=m['seed_id']
@@ -46,6 +51,6 @@ end=s.rindex("\n",0,end)+1
 s=s[:start]+"\n".join(rows)+"\n\n"+s[end:]
 import re
 s=re.sub(r"\w+ rounds of sub-agents produced \d+ distinct confirmed changes \(duplicates of an\nearlier idea were dropped\)\. \w+ of them were missed by the version of the\nchecks that existed when they arrived and led to the strengthenings named in\nthe last column; all \d+ are now reported by the quick tier at `VERIF_SEED=1`\.",
- f"Five rounds of sub-agents produced {n} distinct confirmed changes (duplicates of an\nearlier idea were dropped). {len(notes)} of them were missed by the version of the\nchecks that existed when they arrived and led to the strengthenings named in\nthe last column; all {n} are now reported by the quick tier at `VERIF_SEED=1`.", s)
+ f"Six rounds of sub-agents produced {n} distinct confirmed changes (duplicates of an\nearlier idea were dropped). {len(notes)} of them were missed by the version of the\nchecks that existed when they arrived and led to the strengthenings named in\nthe last column; all {n} are now reported by the quick tier at `VERIF_SEED=1`.", s)
 open('/verif/DESIGN.md','w').write(s)
 print(n, len(notes))
